@@ -273,9 +273,10 @@ def step (s : St) : Op → St
     if s.alive && (s.down == .offered || s.down == .fulfilSeen || s.down == .failSeen) && decide (ANTI_REORG_DELAY ≤ d) then
       { s with down := .onchainTimeoutBuried, timeoutDepth := d }
     else s
-  | .addDownOther => if s.alive then { s with downOther := s.downOther + 1 } else s
+  -- bookkeeping of the OTHER HTLCs' blockers (manager state that survives a crash): applied whenever another HTLC's record changes
+  | .addDownOther => { s with downOther := s.downOther + 1 }
   | .removeDownOther =>
-    if s.alive && s.downOther != 0 then releaseBlocked { s with downOther := s.downOther - 1 } else s
+    if s.downOther != 0 then releaseBlocked { s with downOther := s.downOther - 1 } else s
   | .sendFulfilUp =>
     if s.alive && s.up == .pending && fulfilAllowed s then { s with up := .fulfilSent } else s
   | .sendFailUp =>
